@@ -3,8 +3,8 @@ import AlgoVerif.Proofs.C01Inst
 /-!
 # C15 — balanced trees stay logarithmic and report their true height
 
-`run kind cmp eqVal ops = .ok (s, outs)` says: the history `ops`, executed on two fresh tables of the
-Model of `symboltable/{bst,avl,red_black}.go`, ended in the state `s` (a pair of tables, the first one
+`run kind cmp eqVal ops = .ok (s, outs)` says: the history `ops`, executed on three fresh tables of the
+Model of `symboltable/{bst,avl,red_black}.go`, ended in the state `s` (three tables, the first one
 being the table the calls act on).  Every prefix of a history is a history, so "after `ops`" is
 "after every step of every history".
 
@@ -22,9 +22,9 @@ open AlgoVerif AlgoVerif.C01
 /-- AVL: balanced, and every cached height is the real one, after every history. -/
 theorem C15_avl {K V : Type} (cmp : K → K → Int) (eqVal : V → V → Bool) (ops : List (Op K V))
     (s : State K V) (outs : List (Out K V)) (hrun : run .avl cmp eqVal ops = .ok (s, outs)) :
-    (Balanced s.1 ∧ HeightOK s.1) ∧ (Balanced s.2 ∧ HeightOK s.2) := by
-  have := runFrom_inv (avl_kindInv cmp) eqVal ops (.nil, .nil) s outs ⟨trivial, trivial⟩ hrun
-  exact ⟨this.1.balanced, this.2.balanced⟩
+    (Balanced s.1 ∧ HeightOK s.1) ∧ (Balanced s.2.1 ∧ HeightOK s.2.1) ∧ (Balanced s.2.2 ∧ HeightOK s.2.2) := by
+  have := runFrom_inv (avl_kindInv cmp) eqVal ops (.nil, .nil, .nil) s outs ⟨trivial, trivial, trivial⟩ hrun
+  exact ⟨this.1.balanced, this.2.1.balanced, this.2.2.balanced⟩
 
 /-- A balanced tree of height `h` holds at least `fib (h+2) - 1` keys (so `h ≤ 1.44·log2(n+2)`). -/
 theorem C15_avl_height {K V : Type} (t : Tree K V) (hb : Balanced t) :
@@ -36,8 +36,8 @@ theorem C15_avl_log {K V : Type} (cmp : K → K → Int) (h : LawfulCmp cmp) (eq
     (ops : List (Op K V)) (s : State K V) (outs : List (Out K V))
     (hrun : run .avl cmp eqVal ops = .ok (s, outs)) :
     fib (height .avl s.1 + 2) ≤ s.1.sz + 1 := by
-  have ha := (runFrom_inv (avl_kindInv cmp) eqVal ops (.nil, .nil) s outs ⟨trivial, trivial⟩ hrun).1
-  obtain ⟨s', outs', e, g, -⟩ := runFrom_ok (avl_kindOK h) h eqVal ops (.nil, .nil) ⟨inv_nil, inv_nil⟩
+  have ha := (runFrom_inv (avl_kindInv cmp) eqVal ops (.nil, .nil, .nil) s outs ⟨trivial, trivial, trivial⟩ hrun).1
+  obtain ⟨s', outs', e, g, -⟩ := runFrom_ok (avl_kindOK h) h eqVal ops (.nil, .nil, .nil) ⟨inv_nil, inv_nil, inv_nil⟩
   have hs : s' = s := by
     have : Outcome.ok (s', outs') = Outcome.ok (s, outs) := by rw [← e]; exact hrun
     simp only [Outcome.ok.injEq, Prod.mk.injEq] at this; exact this.1
@@ -49,14 +49,14 @@ theorem C15_avl_log {K V : Type} (cmp : K → K → Int) (h : LawfulCmp cmp) (eq
 /-- LLRB: a left-leaning red-black tree after every history (all five mutators). -/
 theorem C15_rb {K V : Type} (cmp : K → K → Int) (h : LawfulCmp cmp) (eqVal : V → V → Bool)
     (ops : List (Op K V)) (s : State K V) (outs : List (Out K V))
-    (hrun : run .rb cmp eqVal ops = .ok (s, outs)) : LLRB s.1 ∧ LLRB s.2 := by
-  obtain ⟨s', outs', e, g, -⟩ := runFrom_ok (rb_kindOK h) h eqVal ops (.nil, .nil)
-    ⟨⟨inv_nil, llrb_nil⟩, ⟨inv_nil, llrb_nil⟩⟩
+    (hrun : run .rb cmp eqVal ops = .ok (s, outs)) : LLRB s.1 ∧ LLRB s.2.1 ∧ LLRB s.2.2 := by
+  obtain ⟨s', outs', e, g, -⟩ := runFrom_ok (rb_kindOK h) h eqVal ops (.nil, .nil, .nil)
+    ⟨⟨inv_nil, llrb_nil⟩, ⟨inv_nil, llrb_nil⟩, ⟨inv_nil, llrb_nil⟩⟩
   have hs : s' = s := by
     have : Outcome.ok (s', outs') = Outcome.ok (s, outs) := by rw [← e]; exact hrun
     simp only [Outcome.ok.injEq, Prod.mk.injEq] at this; exact this.1
   subst hs
-  exact ⟨g.1.2, g.2.2⟩
+  exact ⟨g.1.2, g.2.1.2, g.2.2.2⟩
 
 /-- A left-leaning red-black tree of height `h` with `n` keys has `2^h ≤ (n+1)^2`, i.e.
 `h ≤ 2·log2(n+1)`. -/
@@ -68,8 +68,8 @@ theorem C15_rb_log {K V : Type} (cmp : K → K → Int) (h : LawfulCmp cmp) (eqV
     (ops : List (Op K V)) (s : State K V) (outs : List (Out K V))
     (hrun : run .rb cmp eqVal ops = .ok (s, outs)) :
     2 ^ height .rb s.1 ≤ (s.1.sz + 1) ^ 2 := by
-  obtain ⟨s', outs', e, g, -⟩ := runFrom_ok (rb_kindOK h) h eqVal ops (.nil, .nil)
-    ⟨⟨inv_nil, llrb_nil⟩, ⟨inv_nil, llrb_nil⟩⟩
+  obtain ⟨s', outs', e, g, -⟩ := runFrom_ok (rb_kindOK h) h eqVal ops (.nil, .nil, .nil)
+    ⟨⟨inv_nil, llrb_nil⟩, ⟨inv_nil, llrb_nil⟩, ⟨inv_nil, llrb_nil⟩⟩
   have hs : s' = s := by
     have : Outcome.ok (s', outs') = Outcome.ok (s, outs) := by rw [← e]; exact hrun
     simp only [Outcome.ok.injEq, Prod.mk.injEq] at this; exact this.1
@@ -87,7 +87,7 @@ theorem C15_height_true {K V : Type} (kind : Kind) (cmp : K → K → Int) (eqVa
   | bst => rfl
   | rb => rfl
   | avl =>
-    have := runFrom_inv (avl_kindInv cmp) eqVal ops (.nil, .nil) s outs ⟨trivial, trivial⟩ hrun
+    have := runFrom_inv (avl_kindInv cmp) eqVal ops (.nil, .nil, .nil) s outs ⟨trivial, trivial, trivial⟩ hrun
     exact this.1.ht_eq
 
 /-! ### non-vacuity: the hypotheses are satisfiable on non-trivial states -/
